@@ -40,6 +40,59 @@ def run_choices(base_seed: int, idx: int):
 
 # ---------------------------------------------------------------- worker side
 
+def run_isolated(fn, timeout: float) -> dict:
+    """Execute one simulated run in a forked child of the worker interpreter, so that nothing a run
+    leaves behind (module-level state of the code under test, parked threads, a leaked process name)
+    can reach the next run.  The child returns its record as JSON through a pipe."""
+    import select
+    r, w = os.pipe()
+    pid = os.fork()
+    if pid == 0:
+        code = 0
+        try:
+            os.close(r)
+            faulthandler.dump_traceback_later(max(5, timeout - 5), exit=True)
+            try:
+                rec = fn()
+            except BaseException as ex:   # harness failure, not a verdict
+                rec = {'harness_error': ''.join(traceback.format_exception(type(ex), ex, ex.__traceback__))[-3000:]}
+            data = json.dumps(rec, default=repr).encode()
+            with os.fdopen(w, 'wb') as f:
+                f.write(data)
+        except BaseException:
+            code = 3
+        finally:
+            os._exit(code)
+    os.close(w)
+    chunks = []
+    deadline = time.time() + timeout
+    timed_out = False
+    while True:
+        left = deadline - time.time()
+        if left <= 0:
+            timed_out = True
+            break
+        ready, _, _ = select.select([r], [], [], min(left, 5.0))
+        if ready:
+            b = os.read(r, 1 << 16)
+            if not b:
+                break
+            chunks.append(b)
+    os.close(r)
+    if timed_out:
+        try:
+            os.kill(pid, 9)
+        except ProcessLookupError:
+            pass
+    os.waitpid(pid, 0)
+    if timed_out:
+        return {'harness_error': f'per-run wall-clock watchdog ({timeout}s)'}
+    try:
+        return json.loads(b''.join(chunks).decode())
+    except Exception:
+        return {'harness_error': 'run child died without a result (crash or watchdog inside the child)'}
+
+
 def worker_main() -> int:
     """Reads one JSON job from stdin, writes one JSON line per run."""
     job = json.loads(sys.stdin.read())
@@ -59,32 +112,49 @@ def worker_main() -> int:
     n = 0
     try:
         work = [(i, None) for i in job.get('indexes', [])] + [(i, c) for i, c in job.get('cases', [])]
-        for idx, case in work:
+        isolate = os.environ.get('VERIF_ISOLATE', '1') == '1'
+
+        def one(idx, case, draws=None):
+            """One execution; returns the record (with the recorded draws of seeded runs)."""
+            if case is not None:
+                rec = chk.run_case(case, workdir, tier)
+                rec['case'] = case
+            else:
+                replay = job.get('replay') if draws is None else draws
+                ch = Choices(replay=replay) if replay is not None else run_choices(base_seed, idx - job.get('seed_offset', 0))
+                rec = chk.run(ch, workdir, tier)
+                rec['draws'] = ch.recorded()
+            rec['idx'] = idx
+            return rec
+
+        def call(idx, case, draws=None):
+            if isolate:
+                return run_isolated(lambda: one(idx, case, draws), per_run_timeout)
             faulthandler.dump_traceback_later(per_run_timeout, exit=True)
+            try:
+                return one(idx, case, draws)
+            finally:
+                faulthandler.cancel_dump_traceback_later()
+
+        for idx, case in work:
             t0 = time.time()
             try:
-                if case is not None:
-                    rec = chk.run_case(case, workdir, tier)
-                    rec['idx'] = idx
-                    rec['case'] = case
+                rec = call(idx, case)
+                if 'harness_error' not in rec:
                     if recheck and n % recheck == 0:
-                        rec2 = chk.run_case(case, workdir, tier)
-                        rec['recheck'] = (rec2['event_digest'] == rec['event_digest'])
-                else:
-                    replay = job.get('replay')
-                    ch = Choices(replay=replay) if replay is not None else run_choices(base_seed, idx - job.get('seed_offset', 0))
-                    rec = chk.run(ch, workdir, tier)
-                    rec['idx'] = idx
-                    if rec['violations'] or job.get('want_draws'):
-                        rec['draws'] = ch.recorded()
-                    if recheck and n % recheck == 0:
-                        ch2 = Choices(replay=ch.recorded())
-                        rec2 = chk.run(ch2, workdir, tier)
-                        rec['recheck'] = (rec2['event_digest'] == rec['event_digest'])
-                        if not rec['recheck']:
-                            rec['recheck_digests'] = [rec['event_digest'], rec2['event_digest']]
-                if not job.get('keep_sample') and not rec['violations'] and n >= 3:
-                    rec.pop('sample', None)
+                        rec2 = call(idx, case, rec.get('draws'))
+                        if 'harness_error' in rec2:
+                            rec = rec2
+                        else:
+                            rec['recheck'] = (rec2['event_digest'] == rec['event_digest'])
+                            if not rec['recheck']:
+                                rec['recheck_digests'] = [rec['event_digest'], rec2['event_digest']]
+                if 'harness_error' not in rec:
+                    if not (rec['violations'] or job.get('want_draws')):
+                        rec.pop('draws', None)
+                    if not job.get('keep_sample') and not rec['violations'] and n >= 3:
+                        rec.pop('sample', None)
+                rec['idx'] = idx
             except BaseException as ex:   # harness failure, not a verdict
                 rec = {'idx': idx, 'harness_error': ''.join(traceback.format_exception(type(ex), ex, ex.__traceback__))[-3000:]}
             rec['wall'] = round(time.time() - t0, 4)
